@@ -208,4 +208,6 @@ package machine
 //@   ensures err == nil ==> ret0 != nil && !ret0.Remaining && ret0.Specific != nil
 //@   ensures err == nil && len(pctMatch(input)) != 0 ==> val(ret0.Specific) == ratOfString(pctMatch(input)[1] + "." + pctMatch(input)[2]) / toReal(100)
 //@   ensures err == nil ==> toReal(0) <= val(ret0.Specific) && val(ret0.Specific) <= toReal(1)
+// (callers keep seeing the body, so that its panic sites stay part of their own obligations)
+//@   inline
 //@   property C03
